@@ -169,6 +169,43 @@ pub fn take_log() -> Vec<Call> {
     WORLD.with(|w| std::mem::take(&mut w.borrow_mut().log))
 }
 
+thread_local! {
+    /// global byte range (proc-macro2 fallback source map of this thread) of the input being parsed
+    static INPUT_BYTES: std::cell::Cell<(u64, u64)> = const { std::cell::Cell::new((0, 0)) };
+}
+
+/// `bytes(lo..hi)` of a fallback span: its place in the thread's source map, unique per parsed text.
+pub fn global_bytes(span: Span) -> Option<(u64, u64)> {
+    let d = format!("{:?}", span);
+    let inner = d.strip_prefix("bytes(")?.strip_suffix(')')?;
+    let (a, b) = inner.split_once("..")?;
+    Some((a.parse().ok()?, b.parse().ok()?))
+}
+
+pub fn set_input_bytes(spans: impl Iterator<Item = Span>) {
+    let mut lo = u64::MAX;
+    let mut hi = 0u64;
+    for s in spans {
+        if let Some((a, b)) = global_bytes(s) {
+            if (a, b) != (0, 0) {
+                lo = lo.min(a);
+                hi = hi.max(b);
+            }
+        }
+    }
+    INPUT_BYTES.with(|c| c.set(if lo == u64::MAX { (0, 0) } else { (lo, hi) }));
+}
+
+/// Does this span point outside the text this run parsed (into an earlier input of the same thread)?
+/// `call_site()` (0..0) points nowhere and is not foreign.
+pub fn foreign_span(span: Span) -> bool {
+    let (lo, hi) = INPUT_BYTES.with(|c| c.get());
+    match global_bytes(span) {
+        Some((0, 0)) | None => false,
+        Some((a, b)) => (lo, hi) != (0, 0) && !(lo <= a && b <= hi),
+    }
+}
+
 pub fn pos_of(lc: proc_macro2::LineColumn) -> Pos {
     (lc.line, lc.column)
 }
